@@ -1,7 +1,7 @@
 (* C08 model runner.  One history per line:
      <id> H <meta> <autosave> <autogc> <N> <T> <node>*N <op>*   (meta = seed.tier.index, ignored)
    node:  <m|b><d|-><s|-><x|-> ':' <succ,succ,..|-> ':' <subject|->
-   op:    P<k> | T<k>:<x>:<a|->:<t|d|D<j>> | U<t> | V<k> | D<k> | G | S | R | C | I<k> | X<v|i|a|f><id> | A<0|1> | W.. M.. (not judged)
+   op:    P<k> | Q<k>:<x>:<a|-> | T<k>:<x>:<a|->:<t|d|D<j>> | U<t> | V<k> | D<k> | G | S | R | C | I<k> | X<v|i|a|f><id> | A<0|1> | W.. M.. (not judged)
    Output: <id> followed by one token per op: the result, or for C the observation
    of the store and of the store reopened from its directory (printed three times:
    oci.New, NewFromFS, NewFromTar all read the same index.json / blobs). *)
@@ -102,6 +102,13 @@ let () =
         let arg = String.sub tok 1 (String.length tok - 1) in
         match tok.[0] with
         | 'P' -> do_op (OPush (nat_of_int (ios arg)))
+        | 'Q' ->
+          (match String.split_on_char ':' arg with
+           | [k; x; a] ->
+             let x = if x = "6" then "0" else x in
+             do_op (OPushX { d_node = nat_of_int (ios k); d_extra = nat_of_int (ios x);
+                             d_refann = (if a = "-" then None else Some (RTag (nat_of_int (ios a)))) })
+           | _ -> failwith "push op")
         | 'T' ->
           (match String.split_on_char ':' arg with
            | [k; x; a; r] ->
